@@ -31,7 +31,7 @@ ASSUMPTIONS = [
     "a record of the interrupted session may be absent even if all its bytes reached the disk (the statement allows "
     "'completely or not at all')",
 ]
-REQUIRED = {"image.judged": 2000, "image.cut-in-header": 100, "image.cut-in-key": 100, "image.cut-in-value": 500,
+REQUIRED = {"image.judged": 2000, "image.cut-in-header": 100, "image.cut-in-key": 100, "image.cut-in-key-inside-character": 50, "image.cut-in-value": 500,
             "recovery.judged": 1000, "second-crash.judged": 200, "rawwrite.sessions": 20, "sigkill.judged": 8,
             "image.via-collection": 500, "same-object.judged": 1000}
 CHUNK_TIMEOUT = 1200
@@ -64,6 +64,8 @@ def make_session(rng, big_ok=True):
     """-> (committed records, session records); keys unique"""
     empty_key_at = rng.randrange(0, 14)        # in about half of the sessions one record has the (legal) empty key
 
+    nonascii = rng.random() < 0.35             # keys are text: a crash may fall inside a multi-byte character
+
     def key(i, tag):
         if i == empty_key_at:
             return b""
@@ -71,6 +73,14 @@ def make_session(rng, big_ok=True):
         if ks == 1:
             return bytes([(65 if tag == "p" else 97) + i])
         base = f"{tag}{i}-".encode()
+        if nonascii:
+            pool = "\u03b1\u03b2\u2212\u952e\u00fc\u00e9\u2192\U0001F600"
+            out, j = base, 0
+            while True:
+                ch = pool[(i * 3 + j) % len(pool)].encode()
+                if len(out) + len(ch) > ks:
+                    return out
+                out, j = out + ch, j + 1
         return (base + bytes(65 + (i * 7 + j) % 26 for j in range(ks)))[:ks]
 
     def val(size, salt):
@@ -154,7 +164,7 @@ def write_session(path, sess, via, bufsize):
         c = Collection(path, UkvCollectionBackend, readonly=False, bufsize=bufsize)
         with c.writing():
             for k, v in sess:
-                c[k.decode("latin-1")] = v
+                c[k.decode("utf-8")] = v
 
 
 def run_chunk(spec, ctx):
@@ -181,6 +191,8 @@ def offsets_for(before_len, sess, full):
                 region = "header"
             elif w < 5 + len(k):
                 region = "key"
+                if (k[w - 5] & 0xC0) == 0x80:
+                    region = "key-inside-character"     # the cut leaves a partial multi-byte character
             else:
                 region = "value"
             if region == "value" and len(v) > max(300, full):
@@ -235,9 +247,9 @@ class Judge:
                 with c.reading():
                     for k in list(c.keys()):
                         try:
-                            shown[k.encode("latin-1")] = c[k]
+                            shown[k.encode("utf-8")] = c[k]
                         except Exception as e:  # noqa
-                            shown[k.encode("latin-1")] = e
+                            shown[k.encode("utf-8")] = e
                 return shown
             except Exception as e:  # noqa
                 self.v(f"reopen-r-raises:{type(e).__name__}", err=repr(e)[:200])
@@ -305,12 +317,12 @@ def same_object_history(J, ctx, path, image, via, bufsize, cdict, sdict, where):
             with c.writing():
                 pass
             with c.reading():
-                shown = {k.encode("latin-1"): c[k] for k in list(c.keys())}
+                shown = {k.encode("utf-8"): c[k] for k in list(c.keys())}
             present = J.judge(shown, cdict, sdict, "same-object-reopen", where)
             with c.writing():
                 c[fresh_k.decode()] = fresh_v
             with c.reading():
-                shown = {k.encode("latin-1"): c[k] for k in list(c.keys())}
+                shown = {k.encode("utf-8"): c[k] for k in list(c.keys())}
     except Exception as e:  # noqa
         J.v(f"same-object-history:raises:{type(e).__name__}", where=where, err=repr(e)[:200])
         return
